@@ -258,6 +258,9 @@ func (e *Exec) contractCall(con *Contract, callee *ssa.Function, name string, ar
 	} else {
 		h2 = h.havoc(withGhost(e.p.externMods(e.u(), callee, name)), name)
 	}
+	if len(con.RowAssigns) > 0 && !con.Pure {
+		e.rowFrames(con, env, h, h2)
+	}
 	var ret Term
 	if con.Pure && rt != nil && rt.Len() >= 1 {
 		ret = e.pureResult(con, name, args, rt, h)
@@ -737,4 +740,49 @@ func (p *Program) fieldElemSort(u *Universe, heapVar string) Sort {
 		}
 	}
 	return ""
+}
+
+// rowBases evaluates the assigns_rows expressions in the pre-state: element sort -> base terms.
+func (e *Exec) rowBases(con *Contract, env *Env) map[Sort][]string {
+	res := map[Sort][]string{}
+	for i, x := range con.RowAssigns {
+		t, err := env.eval(x)
+		if err != nil || t.Sort != SSlice || t.T == nil {
+			e.vc.unsupportedf("assigns_rows %s: %v", con.RowAssignSrc[i], err)
+			continue
+		}
+		st, ok := t.T.Underlying().(*types.Slice)
+		if !ok {
+			continue
+		}
+		so := e.u().sortOf(st.Elem())
+		e.u().elemVar(so)
+		res[so] = append(res[so], app("s_base", t.S))
+	}
+	return res
+}
+
+// rowFrames: rows of the element memories named by assigns_rows are the only pre-existing rows
+// that change across the call.
+func (e *Exec) rowFrames(con *Contract, env *Env, h, h2 *Heap) {
+	e.u().clockVar()
+	oldc := h.get("clock")
+	for so, bases := range e.rowBases(con, env) {
+		ev := e.u().elemVar(so)
+		E, E2 := h.get(ev), h2.get(ev)
+		if E == E2 {
+			continue
+		}
+		var ne []string
+		for _, b := range bases {
+			ne = append(ne, not(eq("b", b)))
+		}
+		at := "at_" + sortTag(so)
+		e.vc.assume(fmt.Sprintf("(forall ((b Int)) (! (=> (and (< b %s) %s) (= (select %s b) (select %s b))) :pattern ((select %s b))))", oldc, and(ne...), E2, E, E2))
+		var ne2 []string
+		for _, b := range bases {
+			ne2 = append(ne2, not(eq("(s_base o)", b)))
+		}
+		e.vc.assume(fmt.Sprintf("(forall ((o Slice) (k Int)) (! (=> (and (< (s_base o) %s) %s) (= (%s %s o k) (%s %s o k))) :pattern ((%s %s o k))))", oldc, and(ne2...), at, E2, at, E, at, E2))
+	}
 }
